@@ -758,3 +758,130 @@ func c09reserveOne(c *core.Ctx, lim *c09limiter, fn *c09fn, disabled string) {
 			"tokens are reserved before the reject test: a rejected request still consumes permits, so later requests are rejected/delayed although permits up to the timeout horizon are not all reserved", exitWitness(badReject)...)
 	}
 }
+
+// c09Dimensions: R-C09-7 — in an acquire function of a limiter whose token count is a slice (one
+// entry per dimension) the dimensions are independent: what a loop over the dimensions computes
+// for dimension i may depend on loop-invariant values and on dimension i only, and is combined
+// with the other dimensions by an overwrite under a comparison (max of the waits), a flag or an
+// early exit. An arithmetic accumulation into a scalar that lives across the iterations
+// (`x += …`, `x = x + …`, `x++`) makes the result for one dimension depend on the depth of the
+// others — e.g. the release slot of a queued arrival becomes the SUM of the per-dimension
+// offsets instead of their maximum, and the arrival is admitted with a wait above timeoutDuration.
+func c09Dimensions(c *core.Ctx, lim *c09limiter, fns []*c09fn) {
+	subjects := 0
+	for _, fn := range fns {
+		if !fn.acquire || fn.fd == nil {
+			continue
+		}
+		// multi-dimensional limiter: the receiver's tokens field is a slice
+		sig := fn.obj.Type().(*types.Signature)
+		rt := sig.Recv().Type()
+		if p, ok := rt.(*types.Pointer); ok {
+			rt = p.Elem()
+		}
+		st, ok := rt.Underlying().(*types.Struct)
+		if !ok {
+			continue
+		}
+		multi := false
+		for i := 0; i < st.NumFields(); i++ {
+			if lim.tokens[st.Field(i)] {
+				_, multi = st.Field(i).Type().Underlying().(*types.Slice)
+			}
+		}
+		if !multi {
+			continue
+		}
+		f := fn.f
+		var loops []ast.Stmt
+		ast.Inspect(f.Body, func(n ast.Node) bool {
+			switch n.(type) {
+			case *ast.FuncLit:
+				return false
+			case *ast.RangeStmt, *ast.ForStmt:
+				loops = append(loops, n.(ast.Stmt))
+			}
+			return true
+		})
+		subjects += len(loops)
+		cons := fn.name + "|dimensions are combined without arithmetic accumulation"
+		var badAt ast.Node
+		badVar := ""
+		for _, l := range loops {
+			var body *ast.BlockStmt
+			var post ast.Stmt
+			switch x := l.(type) {
+			case *ast.RangeStmt:
+				body = x.Body
+			case *ast.ForStmt:
+				body, post = x.Body, x.Post
+			}
+			carriedVar := func(e ast.Expr) types.Object {
+				id, ok := ast.Unparen(e).(*ast.Ident)
+				if !ok {
+					return nil
+				}
+				v, ok := c09obj(f, id).(*types.Var)
+				if !ok || v.IsField() || v.Pkg() == nil || v.Parent() == v.Pkg().Scope() {
+					return nil
+				}
+				if l.Pos() <= v.Pos() && v.Pos() < l.End() {
+					return nil // declared by / inside the loop: fresh in every iteration (or the loop counter)
+				}
+				return v
+			}
+			ast.Inspect(body, func(n ast.Node) bool {
+				if badAt != nil {
+					return false
+				}
+				switch s := n.(type) {
+				case *ast.FuncLit:
+					return false
+				case *ast.IncDecStmt:
+					if s == post {
+						return true
+					}
+					if v := carriedVar(s.X); v != nil {
+						badAt, badVar = s, v.Name()
+					}
+				case *ast.AssignStmt:
+					for i, lh := range s.Lhs {
+						v := carriedVar(lh)
+						if v == nil {
+							continue
+						}
+						switch {
+						case s.Tok != token.ASSIGN && s.Tok != token.DEFINE:
+							badAt, badVar = s, v.Name()
+						case len(s.Lhs) == len(s.Rhs):
+							// x = <arithmetic mentioning x>; max/min(x, …) and boolean &&/|| are reductions
+							r := ast.Unparen(s.Rhs[i])
+							if !c09mentions(f, r, map[types.Object]bool{v: true}) {
+								continue
+							}
+							if call, ok := r.(*ast.CallExpr); ok {
+								if b, ok := f.Callee(call).(*types.Builtin); ok && (b.Name() == "max" || b.Name() == "min") {
+									continue
+								}
+							}
+							if be, ok := r.(*ast.BinaryExpr); ok && (be.Op == token.LAND || be.Op == token.LOR) {
+								continue
+							}
+							badAt, badVar = s, v.Name()
+						}
+					}
+				}
+				return true
+			})
+		}
+		c.Check(badAt == nil, "R-C09-7", cons, pos(c, func() ast.Node {
+			if badAt != nil {
+				return badAt
+			}
+			return f.Body
+		}()),
+			sprintf("%d loop(s) over the dimensions: no scalar that lives across the iterations is accumulated arithmetically", len(loops)),
+			"the loop over the limiter's dimensions accumulates into `"+badVar+"`, which lives across the iterations: the value used for one dimension includes the contributions of the dimensions visited before (sum instead of maximum) — e.g. the release slot of a queued arrival is pushed (depth of dim 0 + depth of dim 1 + …) periods ahead, so it is admitted with a wait above timeoutDuration and released in a period that later arrivals fill as well")
+	}
+	c.RequireCount("R-C09-7", "loops over the dimensions in multi-dimensional acquire functions", subjects, 1)
+}
